@@ -41,15 +41,17 @@ CLAIMED = {
              '(native/axioms_c05.py). numpy externals are exact axioms (nonzero via a counting function, stable argsort, repeat with block offsets, out= stores through slice views, cumsum, injective fancy store).',
         technique='contract-based deductive verification (ast->z3) with induction lemmas as explicit obligations; bounded positional array model for the _assparse rules; two bounded native enumerations as cross-checks'),
     'C06': dict(
-        design='4.6',
-        text='Deductive proof, per _intbounds_impl rule in evaluable.py (42 functions: 39 array rules, 2 tuple rules, _ismonotonic): for all child ranges satisfying the '
-             'Array._intbounds invariant (including +-inf) and all child element values inside them, the rule returns normally, its result satisfies the '
-             'invariant, and every element of the node\'s numpy meaning lies inside it. One SMT obligation per feasible path and clause, generated from the '
-             'current AST of /repo on every run and discharged by z3/cvc5 with no bound on values. Whole-DAG soundness follows by structural induction (meta-argument, DESIGN 4.6).',
-        note='Trusted: the pyvc symbolic executor and its model of Python (DESIGN 2.3); numpy meaning of each node operation (table in contracts/C06.py); int64 treated as '
-             'mathematical; lemma L-SUM; external nutils_poly monotonicity; call-site precondition ia,ib>=0 for RavelIndex; the shape/dtype/arguments half of the property is outside '
-             '(shape clauses of the swap protocols are in C01, announced shapes of function arrays in C07, announced argument tables in C13).',
-        technique='contract-based deductive verification: ast->z3 weakest-precondition style VC generation on the real function bodies, sidecar contracts'),
+        design='4.6 and 9.5',
+        text='(a) Integer ranges, unbounded: per _intbounds_impl rule in evaluable.py (42 functions): for all child ranges satisfying the Array._intbounds invariant (incl. +-inf) and all child element values inside them, the rule returns '
+             'normally, its result satisfies the invariant and every element of the node\'s numpy meaning lies inside it; whole-DAG soundness by structural induction (meta). (b) Announced metadata, BOUNDED (rank <= 3 or number of '
+             'dependencies fixed; lengths, kinds and argument sets arbitrary): for 37 node classes the real __post_init__/shape/dtype/ndim and the real _compile/_compile_expression/evalf are executed -- the _pyast builders interpreted eagerly on '
+             'metadata-only arrays -- and the announced ndim, shape and dtype equal those of what the code itself computes (Einsum subscript bookkeeping, Ravel/Unravel products, Take, Inflate, Polyval/PolyGrad/PolyMul coefficient counts, '
+             'LoopConcatenate via the real _SizesToOffsets prefix sums, ...); configurations the constructor must reject are rejected; the dtype of 30 Pointwise classes for every tuple of operand kinds is numpy\'s result kind or a rejection; '
+             'Evaluable.arguments is exactly the union of the dependencies\' arguments, Loop.arguments removes exactly the loop index, isconstant is consistent; function.Array.__init__ stores valid metadata as given.',
+        note='One recorded KNOWN FINDING (Sign of a boolean array announces bool; numpy.sign has no boolean loop). Two defects repaired here (NameError on three rejection paths; complex FloorDivide). Trusted: numpy meaning of each node '
+             'operation for (a); numpy shape/kind rules of pyvc/npshape.py for (b), each cross-checked by running the model code against real numpy (native/axioms_c06b.py); int64 as mathematical integers. Outside: remaining node classes, '
+             'ranks > 3, lowering agreement of function arrays, that the generated source text matches the eager interpretation (C02).',
+        technique='contract-based deductive verification: ast->z3 weakest-precondition style VC generation on the real function bodies; bounded-rank metadata interpretation of the real compile/evalf code for shapes and dtypes'),
     'C07': dict(
         design='4.7 and 9.5',
         text='Shape calculus of function arrays. Unbounded: function._takeslice selects exactly range(n)[s]; numeric.normdim. BOUNDED (ranks, operand counts, axis arguments and the position of -1 concrete; every length, '
